@@ -283,6 +283,6 @@ def replay(v):
 
 MANIFEST_ENTRY = {
     "level_text": "The real compute() body (real StagedWriter, real decorators, real stage order) is executed symbolically with a recording table / file system, write_stages a symbolic Boolean, a symbolic survival mask and a SYMBOLIC failure point ranging over every stage call of the run: on every feasible path the checks establish that each stage boundary is followed by a write, that each written snapshot holds exactly the columns and header values completed so far and is identical to the corresponding part of the final table, that after a failure at stage k the file is the last completed prefix and the exception propagates, that nothing is written when intermediate writing is off, and that a default diffuse run has 15 boundaries.",
-    "level_note": "File system and astropy Table are recording stubs (write = snapshot; overwrite semantics as astropy); atomicity inside a write and real FITS bytes are outside; process death is modelled as an exception raised by a stage. Decisions are z3 feasibility verdicts over the symbolic failure index / flags; the per-path claims are structural.",
+    "level_note": "The format claim is replayed with an output name from which astropy cannot infer the format. File system and astropy Table are recording stubs (write = snapshot; overwrite semantics as astropy); atomicity inside a write and real FITS bytes are outside; process death is modelled as an exception raised by a stage. Decisions are z3 feasibility verdicts over the symbolic failure index / flags; the per-path claims are structural.",
     "technique": "symbolic execution of the real compute() with symbolic failure point and flags (DFS + z3 feasibility), recording file-system stub",
 }
